@@ -643,7 +643,9 @@ class Beam(_Simu):
 
         # end cases ----------------------------------------------------
 
-        return self.Results_Reshape_values(values, nodeValues)
+        # flat nodal vectors (Nn * dof_n,) cannot be told from element values when Nn * dof_n == Ne
+        storedOnNodes = True if result in ["displacement"] else None
+        return self.Results_Reshape_values(values, nodeValues, storedOnNodes)
 
     def _indexResult(self, result: str) -> int:
         # "Beam1D" : ["ux" "fx"]
